@@ -2,7 +2,7 @@
 import json
 import numpy as np
 
-from harness.proj import rat_close
+from harness.proj import rat_close, relayout
 from harness.core import Machinery
 
 LEVEL = "model_checking"
@@ -28,6 +28,8 @@ def spec_to_code(ctx, arm, cfg):
         vs = np.array([_f(x) for x in c["vs"]])
         m, ini = float(c["mean"]), float(c["ini"])
         case = {"phi": c["phi"], "mean": c["mean"], "ini": c["ini"], "vs": c["vs"]}
+        vs = relayout(vs, n)
+        phi = relayout(phi, n // 5) if len(phi) > 1 else phi
         vs0 = vs.copy()
         try:
             ys = arm.armodel_sim(phi, vs, m, ini)
